@@ -48,4 +48,10 @@ SAME_NAMED_SUBSUITES = _case(
     _cfg(4, "lifo"))
 
 # (the quiet variants depend on which thread reaches its gate first: run them more than once)
+# a reporting backend raising an exception WITHOUT message on an early event (D32, fixed by b5d635d): the remaining
+# test bodies must not be started
+EMPTY_BACKEND_ERROR = dict(_case(
+    _p([_s("s0", [_t("t0", [], [_LOG]), _t("t1", [], [_LOG], rank=2), _t("t2", [], [_LOG], rank=3)])]), _cfg(1)),
+    fault={"k": 3, "cls": "Exception", "text": ""})
+
 CONTROLS = [SAME_NAMED_THREADS, SAME_NAMED_THREADS_QUIET, SAME_NAMED_THREADS_QUIET2, SAME_NAMED_THREADS_QUIET, SAME_NAMED_THREADS_QUIET2, SAME_NAMED_THREADS_STEPS, SAME_NAMED_SUBSUITES]
